@@ -136,6 +136,7 @@ func zzService21(c *zzTree21, n int, head int) *Service {
 	return &Service{
 		state:           &State{voters: voters, setID: zzSetID21, round: zzRound21},
 		blockState:      c,
+		grandpaState:    zzGS21{},
 		keypair:         kp,
 		prevotes:        new(sync.Map),
 		precommits:      new(sync.Map),
@@ -182,6 +183,7 @@ func ZZ_C21_vote_validation() {
 	counted := len(s.getDirectVotes(stage)) > 0
 	vrt.Observe("vote", signer, blk, err != nil, counted)
 	vrt.Assert("accepted_iff_counted", (err == nil) == counted)
+	vrt.Assert("no_equivocation_from_a_single_vote", len(s.pvEquivocations) == 0 && len(s.pcEquivocations) == 0)
 	legit := vrt.And(vrt.And(signer < n, valid), vrt.And(blk < 6 && c.isAncestor(1, blk), number == realNumber))
 	if counted {
 		vrt.Assert("only_valid_votes_counted", legit)
@@ -245,3 +247,66 @@ func ZZ_C21_prevoted_block() {
 	vrt.Assert("prevoted_block_is_highest_supermajority_block", got.Hash == c.hash[best] && got.Number == uint32(c.hdr[best].Number))
 	vrt.Reach("end")
 }
+
+// ZZ_C21_second_vote: authority 0 has a valid prevote for A2 on record; a second vote message
+// from a symbolic signer with symbolic validity, target and number arrives. If it is rejected for
+// any reason other than being a genuine (valid) equivocation, what is counted stays as it was.
+func ZZ_C21_second_vote() {
+	c := zzNewTree21()
+	n := 3
+	s := zzService21(c, n, 1)
+	first := Vote{Hash: c.hash[2], Number: 2}
+	msg0, err := scale.Marshal(FullVote{Stage: prevote, Vote: first, Round: zzRound21, SetID: zzSetID21})
+	if err != nil {
+		panic(err)
+	}
+	m0 := &VoteMessage{Round: zzRound21, SetID: zzSetID21, Message: SignedMessage{
+		Stage: prevote, BlockHash: first.Hash, Number: first.Number, Signature: vrt.Ed25519Sign(0, msg0, true), AuthorityID: vrt.Ed25519Pub(0)}}
+	_, err = s.validateVoteMessage("", m0)
+	vrt.Assert("first_vote_accepted", err == nil)
+	signer := vrt.Choice("signer", n+1)
+	valid := vrt.Bool("valid")
+	blk := vrt.Choice("block", 7)
+	var hash common.Hash
+	realNumber := uint32(77)
+	if blk < 6 {
+		hash = c.hash[blk]
+		realNumber = uint32(c.hdr[blk].Number)
+	} else {
+		hash = common.Hash{0xde, 0xad}
+	}
+	number := vrt.U32("number")
+	msg, err := scale.Marshal(FullVote{Stage: prevote, Vote: Vote{Hash: hash, Number: number}, Round: zzRound21, SetID: zzSetID21})
+	if err != nil {
+		panic(err)
+	}
+	m := &VoteMessage{Round: zzRound21, SetID: zzSetID21, Message: SignedMessage{
+		Stage: prevote, BlockHash: hash, Number: number, Signature: vrt.Ed25519Sign(signer, msg, valid), AuthorityID: vrt.Ed25519Pub(signer)}}
+	_, err = s.validateVoteMessage("", m)
+	legit := vrt.And(vrt.And(signer < n, valid), vrt.And(blk < 6 && c.isAncestor(1, blk), number == realNumber))
+	total2, terr := s.getTotalVotesForBlock(c.hash[2], prevote)
+	vrt.Observe("second", signer, blk, err != nil, len(s.pvEquivocations), total2)
+	vrt.Assert("total_ok", terr == nil)
+	if !legit { // forks on the symbolic number and validity
+		// an invalid message changes nothing: the first vote is still the only thing counted
+		vrt.Assert("invalid_second_vote_rejected", err != nil)
+		vrt.Assert("invalid_second_vote_records_no_equivocation", len(s.pvEquivocations) == 0)
+		vrt.Assert("invalid_second_vote_keeps_first_vote", total2 == 1 && len(s.getDirectVotes(prevote)) == 1)
+	}
+	vrt.Reach("end")
+}
+
+// zzGS21: grandpa state stand-in (only consulted when an equivocation is reported).
+type zzGS21 struct{}
+
+func (zzGS21) GetCurrentSetID() (uint64, error)                          { return zzSetID21, nil }
+func (zzGS21) GetAuthorities(uint64) ([]types.GrandpaVoter, error)       { return nil, errors.New("zz") }
+func (zzGS21) GetSetIDByBlockNumber(uint) (uint64, error)                { return zzSetID21, nil }
+func (zzGS21) SetLatestRound(uint64) error                               { return nil }
+func (zzGS21) GetLatestRound() (uint64, error)                           { return zzRound21, nil }
+func (zzGS21) SetPrevotes(uint64, uint64, []SignedVote) error            { return nil }
+func (zzGS21) SetPrecommits(uint64, uint64, []SignedVote) error          { return nil }
+func (zzGS21) GetPrevotes(uint64, uint64) ([]SignedVote, error)          { return nil, nil }
+func (zzGS21) GetPrecommits(uint64, uint64) ([]SignedVote, error)        { return nil, nil }
+func (zzGS21) NextGrandpaAuthorityChange(common.Hash, uint) (uint, error) { return 0, errors.New("zz") }
+func (zzGS21) GetAuthoritiesChangesFromBlock(uint) ([]uint, error)       { return nil, nil }
